@@ -180,10 +180,18 @@ def assign_confidences(frames, rng, distinct=True):
     """globally distinct (k/1024) or tie-heavy confidences"""
     n = sum(len(f["ests"]) for f in frames)
     pool = rng.sample(range(1, 1024), n) if distinct else [rng.choice([256, 512, 768]) for _ in range(n)]
+    pool = [p / 1024 for p in pool]
+    if distinct and n >= 2 and rng.random() < 0.3:
+        # distinct but CLOSE: part of the confidences lie within 2^-40 .. 2^-30 of each other (exact binary64 values that a float32 copy, a
+        # rounding to a few decimals or a tolerance-based comparison would merge): the ranking must still be by the exact values
+        base = rng.choice([0.5, 0.703125, 0.25])
+        ks = rng.sample(range(-4 * n, 4 * n + 1), n)
+        for j in rng.sample(range(n), max(2, n // 2)):
+            pool[j] = base + ks[j] * 2.0 ** -rng.choice([30, 40])
     i = 0
     for f in frames:
         for e in f["ests"]:
-            e["conf"] = pool[i] / 1024
+            e["conf"] = pool[i]
             i += 1
 
 
